@@ -318,7 +318,7 @@ def c05_sweep(ctx, n):
                 if depth > 0 and rng.random() < 0.35:
                     kids.append(tree(depth - 1))
                 else:
-                    s = make(rng.choice(CLASSES), nps, path=rng.choice([1, 1, 2])) if rng.random() < 0.75 else custom_source(nps, rng.choice([1, 1, 2]))
+                    s = make(rng.choice(CLASSES), nps, path=rng.choice([1, 1, 2, 3, 4])) if rng.random() < 0.75 else custom_source(nps, rng.choice([1, 1, 2, 3]))
                     leaves_local.append(s)
                     kids.append(s)
             return magpy.Collection(*kids)
@@ -329,7 +329,7 @@ def c05_sweep(ctx, n):
             if rng.random() < 0.6:
                 e = tree(2)
             else:
-                e = make(rng.choice(CLASSES), nps, path=rng.choice([1, 2])) if rng.random() < 0.75 else custom_source(nps, rng.choice([1, 2]))
+                e = make(rng.choice(CLASSES), nps, path=rng.choice([1, 2, 3, 5])) if rng.random() < 0.75 else custom_source(nps, rng.choice([1, 2, 4]))
                 leaves_local.append(e)
             entries.append(e)
             per_entry.append(list(leaves_local))
@@ -539,6 +539,41 @@ def c06_sweep(ctx, n):
         if not ok:
             fails.append({"key": f"element:{type(srcs[0]).__name__}:{field}", "desc": f"element {bad} differs from the single static call / wrong shape {out.shape} vs {exp_shape}",
                           "replay": {"sources": [repr(s) for s in srcs], "field": field, "where": str(bad)}})
+    # source lists whose entries are NESTED collections (a collection that is not the last entry and whose number of direct children
+    # differs from its number of sources; a collection that also holds a sensor): every row is that entry asked alone
+    for i in range(max(6, n // 6)):
+        nps = np.random.default_rng(rng.randrange(2**31))
+        ss = [make(rng.choice(CLASSES), nps, path=rng.choice([1, 1, 2, 3])) for _ in range(6)]
+        for j_, s_ in enumerate(ss):
+            s_.position = s_._position + np.array([3.0 * j_, 0, 0])
+        shape_ = rng.choice(["(a(bc))d", "a(b(cd))(e)f", "(a K b)(c)d", "((ab)c)(d(e))f"])
+        if shape_ == "(a(bc))d":
+            entries = [magpy.Collection(ss[0], magpy.Collection(ss[1], ss[2])), ss[3]]
+        elif shape_ == "a(b(cd))(e)f":
+            entries = [ss[0], magpy.Collection(ss[1], magpy.Collection(ss[2], ss[3])), magpy.Collection(ss[4]), ss[5]]
+        elif shape_ == "(a K b)(c)d":
+            entries = [magpy.Collection(ss[0], magpy.Sensor(position=(1, 2, 3)), ss[1]), magpy.Collection(ss[2]), ss[3]]
+        else:
+            entries = [magpy.Collection(magpy.Collection(ss[0], ss[1]), ss[2]), magpy.Collection(ss[3], magpy.Collection(ss[4])), ss[5]]
+        obs = far_points(nps, 3, lo=6, hi=9) + np.array([7.0, 0, 0])
+        field = rng.choice(["B", "H"])
+        get = getattr(magpy, "get" + field)
+        out = get(entries, obs, squeeze=False)
+        M = out.shape[1]
+        done += 1
+        comp["nested:" + shape_] = comp.get("nested:" + shape_, 0) + 1
+        okn = out.shape[0] == len(entries)
+        for k_, e_ in enumerate(entries):
+            if not okn:
+                break
+            alone = get(e_, obs, squeeze=False)[0]
+            if alone.shape[0] < M:
+                alone = np.concatenate([alone, np.repeat(alone[-1:], M - alone.shape[0], axis=0)])
+            if not _close(out[k_], alone, float(np.max(np.abs(alone))) + 1e-300, 1e-7):
+                okn = False
+        if not okn:
+            fails.append({"key": f"element:nested-collections:{field}", "desc": f"get{field}([...], obs) with nested collections {shape_} as entries: a row differs from that entry asked alone "
+                          f"(shape {out.shape})", "replay": {"shape": shape_, "field": field, "classes": [type(s_).__name__ for s_ in ss]}})
     # batches below / above the scalar-vs-vectorised switches of the elliptic-integral routines (n = 9, 10, 14, 15, 40)
     for nrows in (9, 10, 14, 15, 40):
         nps = np.random.default_rng(rng.randrange(2**31))
